@@ -112,6 +112,14 @@ CLAIMED['C17'] = dict(
          'encoded text. The unguarded context manager of the tree before the repair is refuted. The correspondence fails loads at EVERY byte offset and saves at the n-th message for 9 charsets.',
     note='Coq kernel; no axioms; Python codecs other than latin-1/ASCII are assumed to decode what they encode (hypothesis of the theorem).',
     technique='Coq proof (state-passing model of the context manager, all outcomes) + fault-point enumeration on the implementation', design='5/C17')
+CLAIMED['C15'] = dict(
+    text='Theorems over a heap model of message objects (class, frozen flag, attributes) for copy / freeze_message / thaw_message / assignment / deletion: copy is a new '
+         'equal object of the same class and leaves the original; freeze and thaw map None to None, freeze returns a frozen message unchanged (same object), thaw(freeze(m)) '
+         'equals m with m\'s class; frozen objects reject every mutation and the heap is unchanged; ANY sequence of assignments on other objects leaves an object unchanged; '
+         'equal messages have equal hash keys. The correspondence runs operation histories on real objects and compares class, frozen flag, attributes of EVERY object and '
+         'object identity after every step.',
+    note='Coq kernel; no axioms; the heap model carries integer attributes (sysex data, text, keys are exercised on the implementation only); invalid values are C03\'s subject.',
+    technique='Coq proof (heap frame lemmas, induction over assignment sequences) + model/implementation correspondence on object histories', design='5/C15')
 NOT_YET = {}
 ALL = ['C%02d' % i for i in range(1, 21)]
 
